@@ -319,10 +319,11 @@ class Normalizer:
                         if getattr(e, f) is not None:
                             setattr(e, f, self._idx(getattr(e, f)))
                     return e
-                a = norm.affine(e, pre_shifted=True)
+                e2 = self.visit(e)  # loop variables (also inside nested subscripts) become canonical affine forms
+                a = to_affine(e2)   # simplification only: nothing is substituted twice
                 if a is not None:
                     return a.to_ast()
-                return self.visit(e)
+                return e2
 
             def visit_Name(self, n):
                 if isinstance(n.ctx, ast.Load) and n.id in norm._loopsub:
